@@ -48,8 +48,8 @@ def _fp(h, x, np, pd, approx):
         _fp(h, np.asarray(c.row), np, pd, approx)
         _fp(h, np.asarray(c.col), np, pd, approx)
         _fp(h, np.asarray(c.data), np, pd, approx)
-    elif isinstance(x, float) and approx:
-        h.update(("%.6e" % x).encode())
+    elif isinstance(x, (float, np.floating)) and approx:
+        h.update(b"0" if abs(x) < 1e-9 else ("%.5e" % x).encode())       # round-off residues are all "zero"
     elif isinstance(x, (int, float, complex, str, bytes, bool)) or x is None or isinstance(x, np.generic):
         h.update(repr(x).encode())
     elif callable(x):
@@ -62,6 +62,23 @@ def fingerprint(x, np, pd, approx=False):
     h = hashlib.blake2b(digest_size=8)
     _fp(h, x, np, pd, approx)
     return h.hexdigest()
+
+
+_BUILT = []
+
+
+def _ref_job(k):
+    """reference fingerprint of entry k, computed in a FRESH child process (forked before the parent made any call)"""
+    import numpy as np
+    try:
+        import pandas as pd
+    except Exception:
+        pd = None
+    name, fn, args, kwargs, approx = _BUILT[k]
+    try:
+        return fingerprint(fn(*args, **kwargs), np, pd, True)
+    except Exception as ex:
+        return "raised:" + type(ex).__name__
 
 
 def purity_part(run, pid, calls):
@@ -83,6 +100,13 @@ def purity_part(run, pid, calls):
     def num(s):
         return ids.setdefault(s, len(ids) + 1)
 
+    # references from fresh processes: what each call returns when NOTHING else was called before it in the process
+    import multiprocessing as mpc
+    global _BUILT
+    _BUILT = built
+    with mpc.get_context("fork").Pool(processes=4, maxtasksperchild=1) as pool:
+        refs = pool.map(_ref_job, range(len(built)), chunksize=1)
+
     trace = []
     meta = []
     raised = {}
@@ -93,14 +117,23 @@ def purity_part(run, pid, calls):
         try:
             res = fn(*args, **kwargs)
             rfp = fingerprint(res, np, pd, approx)
+            rfa = fingerprint(res, np, pd, True)
         except Exception as ex:
-            rfp = "raised:" + type(ex).__name__
+            rfp = rfa = "raised:" + type(ex).__name__
             raised.setdefault(name, repr(ex)[:160])
         aout = fingerprint([args, kwargs], np, pd)
         trace.append({"fn": k + 1, "ain": num(ain), "aout": num(aout), "res": num(name + rfp)})
         meta.append(name)
+        # the same event against the fresh-process answer (fingerprints rounded to 6 digits: bit patterns may differ across processes)
+        trace.append({"fn": len(built) + k + 1, "ain": num(ain), "aout": num(aout), "res": num(name + "~" + rfa)})
+        meta.append(name + " [vs fresh process]")
 
     n = len(built)
+    for k in range(n):
+        name_k = built[k][0]
+        a0 = fingerprint([built[k][2], built[k][3]], np, pd)
+        trace.append({"fn": len(built) + k + 1, "ain": num(a0), "aout": num(a0), "res": num(name_k + "~" + refs[k])})     # the fresh-process event
+        meta.append(name_k + " [fresh process]")
     for k in range(n):
         call(k)
         call(k)                       # A A
